@@ -530,10 +530,90 @@ func literalBomParent(l *Lineage) []*Lineage {
 	return []*Lineage{c}
 }
 
+func forProfiles(l *Lineage, f func(pr *Profile)) {
+	for i := range l.Poms {
+		for j := range l.Poms[i].Profiles {
+			f(&l.Poms[i].Profiles[j])
+		}
+	}
+}
+
+func plainJDK(spec string, negated bool) bool {
+	return spec != "" && !strings.HasPrefix(spec, "[") && !strings.HasPrefix(spec, "(") && strings.HasPrefix(spec, "!") == negated
+}
+
+// jdkSpec: a profile's <jdk> is a plain (negated = false) or a negated version
+// (Maven: prefix of java.version, "!" negates), not a range.
+func jdkSpec(negated bool) func(l *Lineage) bool {
+	return func(l *Lineage) bool {
+		found := false
+		forProfiles(l, func(pr *Profile) { found = found || plainJDK(pr.JDK, negated) })
+		return found
+	}
+}
+
+// jdkAsRange rewrites every plain (or every negated) <jdk> into a range that is
+// satisfied exactly when Maven's prefix rule is.
+func jdkAsRange(negated bool) func(l *Lineage) []*Lineage {
+	return func(l *Lineage) []*Lineage { return jdkAsRange1(l, negated) }
+}
+
+func jdkAsRange1(l *Lineage, negated bool) []*Lineage {
+	c := cloneLineage(l)
+	forProfiles(c, func(pr *Profile) {
+		if !plainJDK(pr.JDK, negated) {
+			return
+		}
+		active := strings.HasPrefix(maven.JDKProfileActivation, strings.TrimPrefix(pr.JDK, "!")) != strings.HasPrefix(pr.JDK, "!")
+		if active {
+			pr.JDK = "[1,)"
+		} else {
+			pr.JDK = "[99,)"
+		}
+	})
+	return []*Lineage{c}
+}
+
+// The family names that plexus-utils' Os knows; any other <family> value is
+// matched by Maven against os.name (containment).
+var osFamilies = map[string]bool{"windows": true, "os/2": true, "netware": true, "dos": true, "mac": true, "tandem": true, "unix": true, "win9x": true, "z/os": true, "os/400": true, "openvms": true}
+
+func osFamilyIsName(pr *Profile) bool {
+	return pr.OS != nil && pr.OS.Family != "" && !osFamilies[strings.ToLower(strings.TrimPrefix(pr.OS.Family, "!"))]
+}
+
+func osFamilyByName(l *Lineage) bool {
+	found := false
+	forProfiles(l, func(pr *Profile) { found = found || osFamilyIsName(pr) })
+	return found
+}
+
+// familyAsKnown rewrites such a <family> into unix / windows, whichever has
+// the truth value that Maven's os.name containment gives.
+func familyAsKnown(l *Lineage) []*Lineage {
+	c := cloneLineage(l)
+	forProfiles(c, func(pr *Profile) {
+		if !osFamilyIsName(pr) {
+			return
+		}
+		neg := strings.HasPrefix(pr.OS.Family, "!")
+		fam := strings.ToLower(strings.TrimPrefix(pr.OS.Family, "!"))
+		if strings.Contains(string(maven.OSProfileActivation.Name), fam) != neg {
+			pr.OS.Family = "unix"
+		} else {
+			pr.OS.Family = "windows"
+		}
+	})
+	return []*Lineage{c}
+}
+
 var shapes = []shape{
 	{class: "C15:dup-in-one-pom", detect: dupInOnePom, reduce: dropDupInOnePom},
 	{class: "C15:profile-dup-key", detect: profileDupKey, reduce: dropProfileDupKey},
 	{class: "C15:bom-parent-builtin", detect: bomParentBuiltin, reduce: literalBomParent},
+	{class: "C15:jdk-prefix", detect: jdkSpec(false), reduce: jdkAsRange(false)},
+	{class: "C15:jdk-negated", detect: jdkSpec(true), reduce: jdkAsRange(true)},
+	{class: "C15:os-family-by-name", detect: osFamilyByName, reduce: familyAsKnown},
 }
 
 // ---------------------------------------------------------------- coverage
@@ -672,59 +752,38 @@ func (m *monitor) dir() string {
 	return filepath.Join(m.scratch, fmt.Sprintf("b%d", m.nbatch))
 }
 
-// process evaluates a batch of lineages, attributes differences, reports.
-// generated = false for witnesses and replays (no coverage accounting).
-func (m *monitor) process(ls []*Lineage, generated bool) error {
-	r := m.r
+// result of classifying one lineage.
+type classified struct {
+	out       outcome
+	discarded bool
+	class     string   // "" = both sides agree
+	what      string
+	known     []string // classes of the known shapes the difference is attributed to (empty = fresh)
+}
+
+// classify evaluates a batch of lineages and attributes differences: for a
+// differing lineage, the smallest set of known shapes is sought whose removal
+// makes both sides agree (both sides are re-run on the reduced lineages).
+func (m *monitor) classify(ls []*Lineage) ([]classified, error) {
 	d := m.dir()
 	defer os.RemoveAll(d)
 	outs, err := evaluateAll(d, ls)
 	if err != nil {
-		return err
+		return nil, err
 	}
+	res := make([]classified, len(ls))
 	type pending struct {
-		i           int
-		class, what string
-		sets        [][]int // subsets of applicable shapes, smallest first
-		idx         [][]int // per subset: indices into red of its reduced variants
+		i    int
+		sets [][]int // subsets of applicable shapes, smallest first
+		idx  [][]int // per subset: indices into red of its reduced variants
 	}
 	var pend []pending
 	var red []*Lineage
 	for i, l := range ls {
-		class, what, discarded := verdict(outs[i])
-		if discarded {
-			r.Count("discarded:maven-rejects", 1)
-			r.Count("discarded:"+strings.SplitN(outs[i].Ref.Error, ":", 2)[0], 0)
-			if r.Counter("discarded:maven-rejects") <= 3 {
-				r.Set(fmt.Sprintf("discard_example_%d", r.Counter("discarded:maven-rejects")), outs[i].Ref.Error)
-			}
-			continue
-		}
-		r.Eval(1)
-		if generated {
-			r.Count("lineages:compared", 1)
-			mg, ov := nontrivial(l, outs[i].Ref)
-			if mg {
-				r.Count("nontrivial:managed-version", 1)
-			}
-			if ov {
-				r.Count("nontrivial:overridden-property", 1)
-			}
-			if mg || ov {
-				b, _ := json.Marshal(l.Poms)
-				r.Nontrivial(string(b))
-				r.Count("lineages:nontrivial", 1)
-			}
-			for _, f := range l.Feat {
-				r.Count("feature:"+f, 1)
-			}
-			r.Count("rows:dependencies", int64(len(outs[i].Ref.Deps)))
-			r.Count("rows:managed", int64(len(outs[i].Ref.Mgmt)))
-			if len(outs[i].Ref.Deps) > 0 && (mg || ov) {
-				r.Sample(map[string]any{"files": len(l.Poms), "features": l.Feat, "maven": rowStrings(outs[i].Ref.Deps, nil)})
-			}
-		}
-		if class == "" {
+		c := &res[i]
+		c.out = outs[i]
+		c.class, c.what, c.discarded = verdict(outs[i])
+		if c.discarded || c.class == "" {
 			continue
 		}
 		var app []int
@@ -734,10 +793,9 @@ func (m *monitor) process(ls []*Lineage, generated bool) error {
 			}
 		}
 		if len(app) == 0 {
-			r.Violation(class, what, mkCase(l, outs[i]))
 			continue
 		}
-		p := pending{i: i, class: class, what: what}
+		p := pending{i: i}
 		for mask := 1; mask < 1<<len(app); mask++ {
 			var set []int
 			for b, k := range app {
@@ -767,16 +825,15 @@ func (m *monitor) process(ls []*Lineage, generated bool) error {
 		pend = append(pend, p)
 	}
 	if len(pend) == 0 {
-		return nil
+		return res, nil
 	}
 	d2 := m.dir()
 	defer os.RemoveAll(d2)
 	routs, err := evaluateAll(d2, red)
 	if err != nil {
-		return err
+		return nil, err
 	}
 	for _, p := range pend {
-		attributed := false
 		for si, set := range p.sets {
 			agree := false
 			for _, ri := range p.idx[si] {
@@ -787,18 +844,71 @@ func (m *monitor) process(ls []*Lineage, generated bool) error {
 			if !agree {
 				continue
 			}
-			// Smallest set of known shapes whose removal makes both sides agree.
 			for _, k := range set {
-				cs := mkCase(ls[p.i], outs[p.i])
-				cs.Note = "observed as " + p.class + "; both sides agree once the feature is removed"
-				r.Violation(shapes[k].class, p.what, cs)
-				r.Count("attributed:"+shapes[k].class, 1)
+				res[p.i].known = append(res[p.i].known, shapes[k].class)
 			}
-			attributed = true
 			break
 		}
-		if !attributed {
-			r.Violation(p.class, p.what, mkCase(ls[p.i], outs[p.i]))
+	}
+	return res, nil
+}
+
+// process classifies a batch and reports. generated = false for witnesses and
+// replays (no coverage accounting).
+func (m *monitor) process(ls []*Lineage, generated bool) error {
+	r := m.r
+	res, err := m.classify(ls)
+	if err != nil {
+		return err
+	}
+	for i, l := range ls {
+		c := res[i]
+		if c.discarded {
+			r.Count("discarded:maven-rejects", 1)
+			if n := r.Counter("discarded:maven-rejects"); n <= 3 {
+				r.Set(fmt.Sprintf("discard_example_%d", n), c.out.Ref.Error)
+			}
+			continue
+		}
+		r.Eval(1)
+		if generated {
+			r.Count("lineages:compared", 1)
+			mg, ov := nontrivial(l, c.out.Ref)
+			if mg {
+				r.Count("nontrivial:managed-version", 1)
+			}
+			if ov {
+				r.Count("nontrivial:overridden-property", 1)
+			}
+			if mg || ov {
+				b, _ := json.Marshal(l.Poms)
+				r.Nontrivial(string(b))
+				r.Count("lineages:nontrivial", 1)
+			}
+			for _, f := range l.Feat {
+				r.Count("feature:"+f, 1)
+			}
+			r.Count("rows:dependencies", int64(len(c.out.Ref.Deps)))
+			r.Count("rows:managed", int64(len(c.out.Ref.Mgmt)))
+			if len(c.out.Ref.Deps) > 0 && (mg || ov) {
+				r.Sample(map[string]any{"files": len(l.Poms), "features": l.Feat, "maven": rowStrings(c.out.Ref.Deps, nil)})
+			}
+		}
+		if c.class == "" {
+			if generated {
+				r.Count("lineages:agree", 1)
+			}
+			continue
+		}
+		if len(c.known) == 0 {
+			r.Violation(c.class, c.what, mkCase(l, c.out))
+			continue
+		}
+		for _, k := range c.known {
+			cs := mkCase(l, c.out)
+			cs.Note = "observed as " + c.class + "; both sides agree once the feature is removed"
+			r.Violation(k, c.what, cs)
+			r.Count("attributed:"+k, 1)
 		}
 	}
 	return nil
@@ -931,23 +1041,28 @@ func (m *monitor) witnesses() {
 		r.Inconclusive("witnesses/C15.json: " + err.Error())
 		return
 	}
-	// Witnesses of open findings: does the concrete input still fail?
+	// Witnesses of open findings: does the concrete input still fail, in the
+	// finding's own class?
 	for _, f := range r.OpenFindings() {
 		var w struct {
 			Lineage *Lineage `json:"lineage"`
 		}
 		if json.Unmarshal(f.Witness, &w) != nil || w.Lineage == nil {
+			r.Inconclusive("finding " + f.ID + ": witness is not a lineage")
 			continue
 		}
-		d := m.dir()
-		outs, err := evaluateAll(d, []*Lineage{w.Lineage})
-		os.RemoveAll(d)
+		res, err := m.classify([]*Lineage{w.Lineage})
 		if err != nil {
 			r.Inconclusive(err.Error())
 			continue
 		}
-		c, _, disc := verdict(outs[0])
-		r.KnownWitness(f.ID, !disc && c != "")
+		fails := false
+		for _, k := range res[0].known {
+			if k == f.Class {
+				fails = true
+			}
+		}
+		r.KnownWitness(f.ID, fails)
 		r.Count("witness:finding", 1)
 	}
 	var ls []*Lineage
